@@ -419,6 +419,29 @@ pub fn worker(ctx: &Ctx, mut wc: WorkerCtx, _extra: &[String]) {
         }
     }
 
+    // ---- B4 (thorough): all strings of length 4 over one representative per global byte class
+    // of the production event DFA (bytes of one class are indistinguishable to the automaton)
+    if ctx.tier == Tier::Thorough {
+        let reps: Vec<u8> = table(Which::Event).class_reps.clone();
+        for first in 0..reps.len() {
+            unit += 1;
+            if unit % shards != shard {
+                continue;
+            }
+            let mut n = 0u64;
+            for_strings(&reps, first, 4, &mut |s| {
+                case += 1;
+                if case <= resume || s.len() < 4 {
+                    return;
+                }
+                wc.begin_case(case, &descriptor(0, Which::Event, s, &[]));
+                n += 1;
+                check_and_report(&mut wc, &mut local, Which::Event, s, &[vec![4], vec![1, 1, 1, 1], vec![2, 2]], "light", false);
+            });
+            wc.count("B4_class_strings", n);
+        }
+    }
+
     // ---- U: UTF-8 lattice
     {
         let conts: [u8; 8] = [0x80, 0x8F, 0x90, 0x9F, 0xA0, 0xBF, 0x7F, 0xC0];
